@@ -114,12 +114,12 @@ func c09Policy(cs c09Case) scen.Policy {
 }
 
 type c09Env struct {
-	b        *scen.Mem
-	prev     githash.Hash
-	other    githash.Hash
-	treeX    githash.Hash
-	treeY    githash.Hash
-	commitX  githash.Hash
+	b       *scen.Mem
+	prev    githash.Hash
+	other   githash.Hash
+	treeX   githash.Hash
+	treeY   githash.Hash
+	commitX githash.Hash
 }
 
 func (e *c09Env) resolve(ch c09Change) (ref, from, to string) {
